@@ -116,22 +116,30 @@ where
         0 | 1 => Vec::new(),
         _ => gen_words(rng, 12, true),
     };
-    let mut coder: Coder<M, S> = match AnsCoder::from_compressed(init_words.clone()) {
-        Ok(c) => c,
-        Err(_) => {
-            run.violation(
-                "import-refused",
-                "C01/from_compressed-refused",
-                format!("from_compressed refused {:?}", words_u128(&init_words)),
-            );
-            return;
+    // start from raw binary data in 1/4 of the imported starts (the implicit marker word then
+    // becomes part of the exported words)
+    let binary_start = start_kind == 3 && rng.bool();
+    let mut coder: Coder<M, S> = if binary_start {
+        run.count("starts_from_binary", 1);
+        AnsCoder::from_binary(init_words.clone()).unwrap_infallible()
+    } else {
+        match AnsCoder::from_compressed(init_words.clone()) {
+            Ok(c) => c,
+            Err(_) => {
+                run.violation(
+                    "import-refused",
+                    "C01/from_compressed-refused",
+                    format!("from_compressed refused {:?}", words_u128(&init_words)),
+                );
+                return;
+            }
         }
     };
-    let mut reference = RefAns::from_compressed(w, s, &words_u128(&init_words)).unwrap();
+    let mut reference = if binary_start { RefAns::from_binary(w, s, &words_u128(&init_words)) } else { RefAns::from_compressed(w, s, &words_u128(&init_words)).unwrap() };
     if !check_ref(run, &coder, &reference, true, "import") {
         return;
     }
-    let initial_export = words_u128(&init_words);
+    let initial_export = reference.compressed();
     let mut shadow: Vec<Shadow> = Vec::new();
     let mut flushes = 0u64;
     let mut refills = 0u64;
@@ -436,7 +444,7 @@ where
             }
         } else if op < 96 {
             // ---------------- clone / as_decoder / into_decoder: decode everything on a copy
-            let kind = rng.below(3);
+            let kind = rng.below(8);
             let expect: Vec<(usize, usize)> = shadow.iter().rev().map(|e| (e.sym, e.model)).collect();
             let lim = expect.len().min(24);
             match kind {
@@ -458,12 +466,85 @@ where
                         }
                     }
                 }
-                _ => {
+                2 => {
                     let mut d = coder.clone().into_decoder();
                     for &(sym, mi) in &expect[..lim] {
                         let g = decode_generic::<M, S, _>(&zoo[mi], &mut d);
                         if g != sym {
                             fail!("wrong-symbol", "C01/decode-mismatch", "into_decoder pop returned {g}, expected {sym}");
+                        }
+                    }
+                }
+                3 => {
+                    // trait forms of the same conversions
+                    let mut d = <AnsCoder<M::W, S, Vec<M::W>> as constriction::stream::IntoDecoder<1>>::into_decoder(coder.clone());
+                    let mut d2 = <AnsCoder<M::W, S, Vec<M::W>> as constriction::stream::AsDecoder<'_, 1>>::as_decoder(&coder);
+                    let mut d3: AnsCoder<M::W, S, Cursor<M::W, &[M::W]>> = (&coder).into();
+                    for &(sym, mi) in &expect[..lim] {
+                        let g = decode_generic::<M, S, _>(&zoo[mi], &mut d);
+                        let g2 = decode_generic::<M, S, _>(&zoo[mi], &mut d2);
+                        let g3 = decode_generic::<M, S, _>(&zoo[mi], &mut d3);
+                        if g != sym || g2 != sym || g3 != sym {
+                            fail!("wrong-symbol", "C01/decode-mismatch", "IntoDecoder/AsDecoder/From<&AnsCoder> pops returned {g}/{g2}/{g3}, expected {sym}");
+                        }
+                    }
+                }
+                4 => {
+                    // borrowed slice of the exported words
+                    let words: Vec<M::W> = Vec::from(coder.clone());
+                    if words_u128(&words) != reference.compressed() {
+                        fail!("export", "C01/ref-diverges", "Vec::from(coder) gave {:?}", words_u128(&words));
+                    }
+                    let mut d = match AnsCoder::<M::W, S, _>::from_compressed_slice(&words) {
+                        Ok(d) => d,
+                        Err(()) => fail!("import-refused", "C01/from_compressed-refused", "from_compressed_slice refused own export"),
+                    };
+                    for &(sym, mi) in &expect[..lim] {
+                        let g = decode_generic::<M, S, _>(&zoo[mi], &mut d);
+                        if g != sym {
+                            fail!("wrong-symbol", "C01/decode-mismatch", "from_compressed_slice pop returned {g}, expected {sym}");
+                        }
+                    }
+                }
+                5 => {
+                    // words streamed in reverse through the fallible iterator adapter
+                    let words: Vec<M::W> = coder.clone().into_compressed().unwrap_infallible();
+                    let it = words.iter().rev().map(|w| Ok::<M::W, ()>(*w));
+                    let mut d = match AnsCoder::<M::W, S, _>::from_reversed_compressed_iter(it) {
+                        Ok(d) => d,
+                        Err(_) => fail!("import-refused", "C01/from_compressed-refused", "from_reversed_compressed_iter refused own export"),
+                    };
+                    for &(sym, mi) in &expect[..lim] {
+                        let g = zoo[mi].ans_decode(&mut d).expect("iterator backend");
+                        if g != sym {
+                            fail!("wrong-symbol", "C01/decode-mismatch", "from_reversed_compressed_iter pop returned {g}, expected {sym}");
+                        }
+                    }
+                }
+                6 => {
+                    // Cursor -> Reverse<Cursor> in place, then decode
+                    let words: Vec<M::W> = coder.clone().into_compressed().unwrap_infallible();
+                    let c = match AnsCoder::<M::W, S, _>::from_compressed(Cursor::new_at_write_end(words)) {
+                        Ok(c) => c,
+                        Err(_) => fail!("import-refused", "C01/from_compressed-refused", "from_compressed(Cursor) refused own export"),
+                    };
+                    let mut d = c.into_reversed();
+                    for &(sym, mi) in &expect[..lim] {
+                        let g = decode_generic::<M, S, _>(&zoo[mi], &mut d);
+                        if g != sym {
+                            fail!("wrong-symbol", "C01/decode-mismatch", "Cursor coder .into_reversed() pop returned {g}, expected {sym}");
+                        }
+                    }
+                }
+                _ => {
+                    if constriction::stream::Encode::<1>::maybe_full(&coder) {
+                        fail!("maybe_full", "C01/maybe_full", "Vec-backed coder claims maybe_full()");
+                    }
+                    let mut d = coder.clone().into_seekable_decoder();
+                    for &(sym, mi) in &expect[..lim] {
+                        let g = decode_generic::<M, S, _>(&zoo[mi], &mut d);
+                        if g != sym {
+                            fail!("wrong-symbol", "C01/decode-mismatch", "into_seekable_decoder pop returned {g}, expected {sym}");
                         }
                     }
                 }
